@@ -650,9 +650,13 @@ def trace_part(out, pid, tier, progs, ws, batches, seed, n_runs, maxlen, proj, w
 
 
 def c09_reason(evs, n_chars, free_running):
+    """C09 judged on a recorded trace alone: no panic / hang, every item accounts for new input
+    (items are in input order and never go back over characters an earlier item already
+    accounted for), at most n+1 items and n+1 actions, None is reached."""
     items = 0
     acts = 0
     saw_none = False
+    last_end = 0        # byte index up to which earlier items have accounted for the input
     for e in evs:
         k = e["k"]
         if k == "P":
@@ -665,6 +669,16 @@ def c09_reason(evs, n_chars, free_running):
             if saw_none:
                 return "an item was produced after None"
             items += 1
+            if k == "T":
+                if e["s"][2] < last_end or e["e"][2] < e["s"][2]:
+                    return "token %s spans bytes %d..%d but the input up to byte %d was already accounted for" % (
+                        e["r"], e["s"][2], e["e"][2], last_end)
+                last_end = e["e"][2]
+            else:
+                if e["at"][2] < last_end:
+                    return "error located at byte %d but the input up to byte %d was already accounted for" % (
+                        e["at"][2], last_end)
+                last_end = e["at"][2]
         if k == "N":
             saw_none = True
     if items > n_chars + 1:
@@ -2189,6 +2203,124 @@ def check_C12(tier, seed):
     return out
 
 
+# ---------------------------------------------------------------------------------------------
+# --replay
+# ---------------------------------------------------------------------------------------------
+
+PROJ = {}
+
+
+def replay(pid, path):
+    """Re-execute the case recorded in a replay file against the current tree."""
+    from pipeline import build_family, tlc_expected, run_requests
+    with open(path) as f:
+        pl = json.load(f)
+    out = Outcome(pid)
+    kind = pl.get("kind")
+    if kind == "replay":
+        prog = Program.from_json(pl["program"])
+        prog.inputs = [pl["input"]]
+        tag = pid + "_replay"
+        ws, batches, failures = build_family(tag, [prog])
+        if failures:
+            out.violations.append({"key": "replay build", "desc": "program no longer builds: %s" % failures, "payload": pl})
+            return out
+        res = tlc_expected(tag, [prog], workers=2, timeout=600)
+        if not res.ok:
+            raise ToolError("TLC: " + str(res.error))
+        rules = prog.rules()
+        exp = None
+        for rp in res.tagged.get("REPLAY", []):
+            ok_, j = True, 0
+            for e in rp["ev"]:
+                if e["k"] == "A":
+                    want = (pl["script"][j] if j < len(pl["script"]) else 0) % len(rules[e["r"]]["menu"])
+                    if e["ch"] != want:
+                        ok_ = False
+                        break
+                    j += 1
+            if ok_:
+                exp = rp["ev"]
+                break
+        if exp is None:
+            raise ToolError("no specification behaviour follows the recorded script")
+        req = {"p": prog.id, "inp": pl["input"], "script": pl["script"], "ctor": pl.get("ctor", 0),
+               "clone_at": pl.get("clone_at", -1), "sched": pl.get("sched", []), "ev": exp}
+        if pl.get("why"):       # C09-style: free run judged on its own
+            req.pop("ev")
+            req["notx"] = True
+        results = run_requests(ws, batches, [req], tag)
+        r = results[0]
+        if pl.get("why"):
+            why = c09_reason(strip_lx(r["ev"]), len(pl["input"]), True)
+            if why:
+                out.violations.append({"key": "replay", "desc": "still violated: %s" % why, "payload": dict(pl, actual=r["ev"][:200])})
+            return out
+        if r is None:
+            print("replay: the real lexer now produces the expected trace")
+            return out
+        act = strip_lx(r["ev"])
+        proj = PROJ.get(pid, lambda evs: evs)
+        if pl.get("clone_at", -1) >= 0 or pid in ("C14", "C15"):
+            differs = True
+        else:
+            pe, pa = project_pair(proj, exp, act, prog)
+            differs = pe != pa
+        if differs:
+            out.violations.append({"key": "replay", "desc": "still violated: expected %s, real lexer gave %s" % (
+                json.dumps(exp)[:300], json.dumps(act)[:300]), "payload": dict(pl, expected=exp, actual=act)})
+        else:
+            print("replay: differs from the reference only outside this property's projection")
+        return out
+    if kind == "rangemap":
+        from common import Workspace, run_parallel, BUILD, HARNESS
+        ws = Workspace(pid + "_replay")
+        ws.add_crate("c11r_rangemap", 'include!("%s/src/main_rangemap.rs");\n' % HARNESS)
+        ok, err = ws.build()
+        if not ok:
+            raise ToolError(err[-1000:])
+        d = os.path.join(BUILD, pid + "_replay")
+        tf, rf = os.path.join(d, "t.ndjson"), os.path.join(d, "r.ndjson")
+        with open(tf, "w") as f:
+            f.write(json.dumps(pl["transition"]) + "\n")
+        run_parallel([[ws.binary("c11r_rangemap"), tf, rf]])
+        with open(rf) as f:
+            lines = [json.loads(x) for x in f]
+        bad = [x for x in lines if not x.get("done")]
+        if bad:
+            t = pl["transition"]
+            act = bad[0].get("actual")
+            pts = list(range(0, 8))
+            if act is None or not well_formed(act) or den_points(act, pts) != den_points(t["after"], pts):
+                out.violations.append({"key": "replay", "desc": "still violated: %s" % json.dumps(bad[0])[:300], "payload": pl})
+        return out
+    if kind in ("definition", "syntax", "scoping", "expansion"):
+        text = pl.get("text")
+        if text is None and pl.get("program"):
+            prog = Program.from_json(pl["program"])
+            text = "%s(St) -> Tok; type Error = UErr; %s" % (prog.lexer_name(), prog.body())
+        elif kind == "syntax":
+            text = "L1 -> u8; rule Init { %s = 0u8, }" % text
+        elif not text.lstrip().startswith("L"):
+            text = "L1 -> u8; " + text
+        ws, outcomes, ok, err = verif_crates(pid + "_replay", [("V1", text)], nb=1)
+        print("replay: outcome of the real macro on `%s`: %s" % (text[:200], outcomes.get("V1")))
+        o = outcomes.get("V1")
+        if kind == "definition" and (o is None or o["outcome"] == "ok"):
+            out.violations.append({"key": "replay", "desc": "still accepted: " + text[:300], "payload": pl})
+        if kind == "expansion" and (o is None or o["outcome"] != "ok" or not o["same"]):
+            out.violations.append({"key": "replay", "desc": "still failing: %s" % o, "payload": pl})
+        if kind == "syntax":
+            d = ws.dump("L1")
+            got = ast_re(d.get("ast", "")) if d else None
+            if got != pl.get("want"):
+                out.violations.append({"key": "replay", "desc": "still read as %s, not %s" % (got, pl.get("want")), "payload": pl})
+        return out
+    # other kinds: re-run the check that produced it (the case is part of its fixed family)
+    print("replay: kind %r is re-executed by running the quick check again" % kind)
+    return CHECKS[pid]("quick", SEED)
+
+
 def setup():
     """Warm the cargo target directory (dependencies, lexgen with hooks) and check the tools."""
     import subprocess
@@ -2201,6 +2333,10 @@ def setup():
     if cp.returncode != 0:
         raise ToolError("java not available")
 
+
+PROJ.update({"C01": proj_tokens, "C02": lambda evs: proj_tokens(evs, stop_at_invalid=False),
+             "C03": proj_c03, "C04": proj_c04, "C05": proj_c05, "C06": proj_c06, "C07": proj_c07,
+             "C08": proj_c08, "C10": proj_c10, "C11": lambda evs: proj_tokens(evs, stop_at_invalid=False)})
 
 CHECKS = {
     "C01": check_C01,
